@@ -37,3 +37,11 @@ func vhEpShutdown() {
 		vhEpServer.Close()
 	}
 }
+
+// vhFreeSchedule: the native threads of this harness run freely (its assertions do not depend on their timing)
+func vhFreeSchedule() {
+	vSchedMu.Lock()
+	vSchedFree = true
+	vSchedCond.Broadcast()
+	vSchedMu.Unlock()
+}
